@@ -24,6 +24,7 @@ def reset():
     _FACTOR_CACHE.clear()
     _FACTOR_VARS.clear()
     _CANCEL_CACHE.clear()
+    SQRT_DEFS.clear()
     del _KEEP[:]
 
 
@@ -133,9 +134,53 @@ def rf_neg(x):
     return (p_neg(x[0]), x[1])
 
 
+SQRT_DEFS = {}      # atom id of r = sqrt(x)  ->  (num, den) of x
+
+
+def _has_sq(p):
+    for m in p:
+        for v, e in m:
+            if e >= 2 and v in SQRT_DEFS:
+                return True
+    return False
+
+
+def reduce_sqrt(x):
+    """rewrite r^2 -> x for every atom r = sqrt(x) (normal form modulo the
+    defining relation of sqrt)."""
+    n, d = x
+    guard = 0
+    while SQRT_DEFS and (_has_sq(n) or _has_sq(d)) and guard < 8:
+        guard += 1
+        out = []
+        for p in (n, d):
+            acc = (ZERO, ONE)
+            for m, c in p.items():
+                term = ({(): c}, ONE)
+                rest = []
+                for v, e in m:
+                    if e >= 2 and v in SQRT_DEFS:
+                        xn, xd = SQRT_DEFS[v]
+                        for _ in range(e // 2):
+                            term = rf_mul(term, (xn, xd))
+                        if e % 2:
+                            rest.append((v, 1))
+                    else:
+                        rest.append((v, e))
+                if rest:
+                    term = rf_mul(term, ({tuple(rest): Fraction(1)}, ONE))
+                acc = rf_add(acc, term)
+            out.append(acc)
+        (nn, nd), (dn, dd) = out
+        n, d = p_mul(nn, dd), p_mul(dn, nd)
+    return (n, d)
+
+
 def rf_norm(x):
     """Light normalisation: constant denominators are folded; common monomial
     content is not touched."""
+    if SQRT_DEFS:
+        x = reduce_sqrt(x)
     n, d = x
     if not n:
         return (ZERO, ONE)
@@ -252,6 +297,11 @@ def canon_key(t):
     equal rational functions with different denominators may get different
     keys: incompleteness only)."""
     n, d = ratfun(t)
+    if d != ONE and n and not p_is_const(d) and len(n) < 300 and len(d) < 300:
+        try:
+            n, d = cancel(n, d)
+        except Exception:
+            pass
     if d != ONE and n:
         # normalise by the leading coefficient of the denominator
         lead = d[min(d)]
